@@ -162,6 +162,36 @@ class Ctx:
             facts[('var', SYM('fld', obj, 'f%d' % self.readonly_fields()['checker']))] = 0
         return facts
 
+    def auto_sync_heap(self, entry, value):
+        """Symbolic-heap seed specialising a stacked-cache method to auto_sync == value."""
+        body = self.B[entry]
+        selfp = SYM('param', '1', body['locals'][1].get('name', 'arg1'))
+        return {('s', selfp, (('f', self.stack_fields()['auto_sync']),)): INT(1 if value else 0)}
+
+    def insert_methods(self):
+        """Write-side trait methods that publish: {name: 'publish_replace'|'publish_excl'}; plus the
+        lookup / temp-dir / touch method names, by the effects of their implementations."""
+        wt = self.role('write_trait')
+        out = {}
+        for m in self.traits[wt]['methods']:
+            effs = set()
+            for k in self.cg.impl_targets(wt, m['name']):
+                effs |= self.cg.effects(k)
+            if 'publish_replace' in effs:
+                out[m['name']] = 'set'
+            elif 'publish_excl' in effs:
+                out[m['name']] = 'put'
+            elif 'open_ro' in effs:
+                out[m['name']] = 'get'
+            elif 'ns_create_dir' in effs:
+                out[m['name']] = 'temp_dir'
+            elif 'meta_atime' in effs:
+                out[m['name']] = 'touch'
+        for need in ('set', 'put', 'get', 'temp_dir', 'touch'):
+            if need not in out.values():
+                raise RoleError('write-side trait method role %s not found' % need)
+        return out
+
     def _role_write_trait(self):
         t = self.adt(self.role('stack_cache'))
         for f in t['variants'][0]['fields']:
